@@ -385,6 +385,14 @@ func init() {
 		return Tuple{float64(0), err}
 	}
 
+	symIntrinsics["strconv.FormatFloat"] = func(in *Interp, fr *frame, a []Value) Value {
+		if anySym(a) {
+			in.unsupported("strconv.FormatFloat of a symbolic value")
+		}
+		return nil
+	}
+	symIntrinsics["strconv.AppendFloat"] = symIntrinsics["strconv.FormatFloat"]
+
 	// unicode predicates on symbolic runes: disjunction of the intervals of the host's real tables.
 	for name, tab := range map[string]struct {
 		rt   []*unicode.RangeTable
